@@ -37,8 +37,38 @@ def fields_by_type(prog):
     return None
 
 
-def is_field_of_self(e, field):
-    return isinstance(e, tuple) and e[0] == "field" and e[2] == field and isinstance(e[1], tuple) and e[1][0] == "param" and e[1][1] == 1
+def is_field_of_self(e, field, fn=None):
+    if isinstance(e, tuple) and e[0] == "field" and e[2] == field and isinstance(e[1], tuple) and e[1][0] == "param" and e[1][1] == 1:
+        return True
+    # `let FilenameDistributor { parent, .. } = self;` in a consuming method: the local is the field, moved out once
+    if fn is not None and isinstance(e, tuple) and e and e[0] == "local":
+        ds = df.defs_of(fn).all(e[1])
+        if len(ds) == 1 and ds[0][0] == "stmt" and ds[0][3]["rv"]["k"] == "use" and ds[0][3]["rv"]["op"].get("k") == "move":
+            pl = ds[0][3]["rv"]["op"]["pl"]
+            ps = pl.get("p", [])
+            return pl["l"] == 1 and fn.local_ty(1).startswith(ADT) and len(ps) == 1 and isinstance(ps[0], dict) and ps[0].get("name") == field
+    return False
+
+
+def def_call(fn, op):
+    """(bb, term) of the call whose result operand `op` carries through plain copies/moves, else None."""
+    seen = set()
+    while op.get("k") in ("copy", "move") and all(x == "deref" for x in op["pl"].get("p", [])) and op["pl"]["l"] not in seen:
+        l = op["pl"]["l"]
+        seen.add(l)
+        one = df.defs_of(fn).single(l)
+        if one is None:
+            return None
+        if one[0] == "call":
+            return one[1], one[2]
+        rv = one[3]["rv"]
+        if rv["k"] == "ref" and all(x == "deref" for x in rv["pl"].get("p", [])):
+            op = {"k": "copy", "pl": rv["pl"]}
+            continue
+        if rv["k"] != "use":
+            return None
+        op = rv["op"]
+    return None
 
 
 def mut_sites(fn, field):
@@ -50,7 +80,7 @@ def mut_sites(fn, field):
         for i, (a, ty) in enumerate(zip(t["args"], t["argtys"])):
             if ty.startswith("&mut ") and a.get("k") in ("copy", "move"):
                 e = df.operand_expr(fn, a)
-                if isinstance(e, tuple) and e[0] == "field" and e[2] == field:
+                if is_field_of_self(e, field, fn):
                     out.append((bb, t, i))
     return out
 
@@ -152,28 +182,54 @@ def run(ck):
         others = [b2 for f2, b2, t2 in all_sites if f2.id == fn.id and b2 != bb]
         if rp.endswith("Vec::<T, A>::push"):
             v = df.operand_expr(fn, t["args"][1])
-            # v = *or_insert(entry(self.map, name), len(self.parent))
-            shape = df.is_call(v, "Entry::<'a, K, V, A>::or_insert") and len(v[2]) == 2 and df.is_call(v[2][0], "::entry") and \
-                is_field_of_self(v[2][0][2][0], mp) and df.is_call(v[2][1], "::len") and is_field_of_self(v[2][1][2][0], parent)
-            guarded = False
-            if shape:
+            is_len = lambda e: df.is_call(e, "::len") and is_field_of_self(e[2][0], parent, fn)
+            # (a) v = *or_insert(entry(self.map, name), len(self.parent)), pushed on the branch where v == that length
+            shape_a = df.is_call(v, "Entry::<'a, K, V, A>::or_insert") and len(v[2]) == 2 and df.is_call(v[2][0], "::entry") and \
+                is_field_of_self(v[2][0][2][0], mp, fn) and is_len(v[2][1])
+            ok, why = False, "not the registration idiom"
+            len_site = None
+            if shape_a:
                 ln = v[2][1]
+                oi = def_call(fn, t["args"][1])
+                len_site = def_call(fn, oi[1]["args"][1]) if oi else None
                 for g in guards.find_bool_guards(fn, lambda e: isinstance(e, tuple) and e[0] == "bin" and e[1] in ("Eq", "Ne")):
                     a, b = g["expr"][2], g["expr"][3]
-                    if {a, b} == {v, ln} or (a == v and b == ln) or (a == ln and b == v):
+                    if (a == v and b == ln) or (a == ln and b == v):
                         edge = g["true_edge"] if g["expr"][1] == "Eq" else g["false_edge"]
                         if bb in cfg.dominated_by_edge(fn, edge):
-                            guarded = True
-                # the length read is still the length: no other mutation between the len() call and this push
-                len_bbs = [b2 for b2, t2 in fn.calls() if (callee_of(t2).get("rpath") or "").endswith("::len") and
-                           is_field_of_self(df.operand_expr(fn, t2["args"][0]), parent) and bb in cfg.reachable(fn, [b2])]
-                between = [o for o in others if any(o in cfg.reachable(fn, [lb]) for lb in len_bbs) and bb in cfg.reachable(fn, [o]) and
-                           not all(cfg.dominates(fn, o, lb) for lb in len_bbs if bb in cfg.dominated_by_edge(fn, (lb, fn.blocks[lb]["term"].get("target"))))]
-            ok = shape and guarded
+                            ok = True
+                if not ok:
+                    why = "the push is not on the branch where the looked-up value equals the length"
+            elif is_len(v):
+                # (b) v = len(self.parent), pushed where the same value was inserted into the name map for a vacant name
+                len_site = def_call(fn, t["args"][1])
+                for b2, t2 in fn.calls():
+                    r2 = callee_of(t2).get("rpath") or ""
+                    if fn.blocks[b2]["cleanup"]:
+                        continue
+                    if r2.endswith("VacantEntry::<'a, K, V, A>::insert") and len(t2["args"]) == 2:
+                        ent = df.operand_expr(fn, t2["args"][0])
+                        onmap = df.mentions(ent, lambda x: df.is_call(x, "::entry") and is_field_of_self(x[2][0], mp, fn))
+                        val_op = t2["args"][1]
+                    elif r2.endswith("HashMap::<K, V, S, A>::insert") and len(t2["args"]) == 3:
+                        onmap = is_field_of_self(df.operand_expr(fn, t2["args"][0]), mp, fn)
+                        val_op = t2["args"][2]
+                    else:
+                        continue
+                    if onmap and len_site and def_call(fn, val_op) and def_call(fn, val_op)[0] == len_site[0] and \
+                            (cfg.dominates(fn, b2, bb) or cfg.dominates(fn, bb, b2)):
+                        ok = True
+                if not ok:
+                    why = "the pushed length is not the value inserted into the name map for the new name"
+            if ok:
+                # the length read is still the length: no other mutation of the vector between reading it and this push
+                stale = len_site is None or [o for o in others if o in cfg.reachable_from_after(fn, len_site[0]) and bb in cfg.reachable_from_after(fn, o)]
+                if stale:
+                    ok, why = False, "the parent vector is modified between reading its length and pushing that value"
             nreg += 1 if ok else 0
             ck.require(ok, "C07-R2", "registration: " + inst,
-                       "push onto the parent vector of %s: not the registration idiom (value inserted into the name map as the current length, "
-                       "pushed on the branch where it equals that length)" % df.show(v, 120), fn.where(t),
+                       "push onto the parent vector of %s: %s (a fresh node must be pushed as len(parent) = the value stored in the name map, "
+                       "so that it is its own parent)" % (df.show(v, 120), why), fn.where(t),
                        ok_detail="fresh node = len(parent) = value stored in the name map; it is its own parent")
         elif rp.endswith("IndexMut<I>>::index_mut"):
             idx = df.operand_expr(fn, t["args"][1])
@@ -184,7 +240,8 @@ def run(ck):
                 continue
             sb, ss = stores[0]
             val = df.rvalue_expr(fn, ss["rv"])
-            if is_root_call(idx) and is_root_call(val):
+            ia, va = df.alternatives(fn, idx), df.alternatives(fn, val)
+            if ia and va and all(is_root_call(x) for x in ia) and all(is_root_call(x) for x in va):
                 # no mutation between the two root calls and the store
                 rcalls = [b2 for b2, t2 in fn.calls() if (callee_of(t2).get("rpath") or "") in roots and bb in cfg.reachable(fn, [b2])]
                 stale = [o for o in others if any(o in cfg.reachable_from_after(fn, rb) for rb in rcalls) and bb in cfg.reachable_from_after(fn, o)]
@@ -192,8 +249,8 @@ def run(ck):
                 ck.require(not stale, "C07-R2", "link: " + inst,
                            "parent vector is modified between finding the roots and linking them (the values may no longer be roots)", fn.where(t),
                            ok_detail="parent[%s] = %s: both are results of the root function" % (df.show(idx, 60), df.show(val, 60)))
-            elif fn.id == build.id and df.is_call(val, "Index<I>>::index") and is_field_of_self(val[2][0], parent) and \
-                    df.is_call(val[2][1], "Index<I>>::index") and is_field_of_self(val[2][1][2][0], parent) and val[2][1][2][1] == idx:
+            elif fn.id == build.id and df.is_call(val, "Index<I>>::index") and is_field_of_self(val[2][0], parent, fn) and \
+                    df.is_call(val[2][1], "Index<I>>::index") and is_field_of_self(val[2][1][2][0], parent, fn) and val[2][1][2][1] == idx:
                 # parent[i] = parent[parent[i]] inside an ascending pass over 0..len
                 loops = [il for il in pt.iterator_loops(fn) if bb in il["body"]]
                 asc = False
@@ -208,7 +265,7 @@ def run(ck):
                             it = it[2][0]
                         item_ok = isinstance(idx, tuple) and idx[0] == "field" and idx[2] == 0 and isinstance(idx[1], tuple) and idx[1][0] == "downcast"
                         if isinstance(it, tuple) and it[0] == "agg" and it[1].endswith("ops::range::Range") and it[3][0] == ("const", 0, "usize") and \
-                                df.is_call(it[3][1], "::len") and is_field_of_self(it[3][1][2][0], parent) and item_ok:
+                                df.is_call(it[3][1], "::len") and is_field_of_self(it[3][1][2][0], parent, fn) and item_ok:
                             asc = True
                 nflat += 1
                 ck.require(asc, "C07-R2", "flatten: " + inst,
@@ -227,7 +284,7 @@ def run(ck):
     # both names of add() reach a registration
     names = []
     for bb, t in add.calls():
-        if (callee_of(t).get("rpath") or "").endswith("::entry") and is_field_of_self(df.operand_expr(add, t["args"][0]), mp):
+        if (callee_of(t).get("rpath") or "").endswith("::entry") and is_field_of_self(df.operand_expr(add, t["args"][0]), mp, add):
             names.append(df.operand_expr(add, t["args"][1]))
     p2 = [e for e in names if isinstance(e, tuple) and e[0] == "param" and e[1] == 2]
     p3 = [e for e in names if df.mentions(e, lambda x: isinstance(x, tuple) and x[0] == "param" and x[1] == 3)]
@@ -275,10 +332,10 @@ def run(ck):
         for bb, s in sts:
             e = df.rvalue_expr(build, s["rv"])
             shown = df.show(e, 120)
-            if isinstance(e, tuple) and e[0] == "bin" and e[1] == "Rem" and is_field_of_self(e[3], tc):
+            if isinstance(e, tuple) and e[0] == "bin" and e[1] == "Rem" and is_field_of_self(e[3], tc, build):
                 x = e[2]
                 node = df.place_expr(build, {"l": s["lhs"]["l"], "p": ["deref"]}) if hasattr(df, "place_expr") else None
-                via_parent = df.is_call(x, "Index<I>>::index") and is_field_of_self(x[2][0], parent) and flat_build
+                via_parent = df.is_call(x, "Index<I>>::index") and is_field_of_self(x[2][0], parent, build) and flat_build
                 via_root = is_root_call(x)
                 if via_parent or via_root:
                     good = True
@@ -292,7 +349,7 @@ def run(ck):
                    "build stores %s into the map: not parent[node] %% thread_count after flattening, nor root(node) %% thread_count" % shown, build.where(),
                    ok_detail=shown)
     r0 = [df.rvalue_expr(build, dd[3]["rv"]) for dd in df.defs_of(build).all(0) if dd[0] == "stmt" and not build.blocks[dd[1]]["cleanup"]]
-    ck.require(len(r0) == 1 and is_field_of_self(r0[0], mp), "C07-R5", "build returns the rewritten name map",
+    ck.require(len(r0) == 1 and is_field_of_self(r0[0], mp, build), "C07-R5", "build returns the rewritten name map",
                "build returns %s" % [df.show(e, 80) for e in r0], build.where())
 
     # the caller hands over every relation: a related name is omitted only for single-named file patches (shared with C06-R8)
